@@ -1192,7 +1192,9 @@ func splitIntoSentences(text string) []string {
 				str := current.String()
 				if len(str) >= 2 {
 					prevChar := rune(str[len(str)-2])
-					if unicode.IsUpper(prevChar) && (i < 2 || unicode.IsSpace(rune(str[len(str)-3]))) {
+					// len(str) < 3: the capital letter starts the current sentence (the builder was
+					// reset after the previous sentence end), so there is no byte before it to look at
+					if unicode.IsUpper(prevChar) && (i < 2 || len(str) < 3 || unicode.IsSpace(rune(str[len(str)-3]))) {
 						continue
 					}
 				}
